@@ -550,6 +550,37 @@ Fixpoint prun_img (C : pconf) (m : pmgr) (img : image) (ops : list pop) : pmgr *
   | o :: r => prun_img C (fst (pstep C m o)) (apply_ws img (snd (pstep C m o))) r
   end.
 
-(* branch -> head version as a client resolves it ("uuid:branch"): live map vs the one rebuilt from leaves *)
+(* branch -> head version as a client resolves it ("uuid:branch").
+
+   Repaired code (repo_patches/C03-3-fix.diff): repoT.branchHeads is a function of the DAG — the
+   node with the largest version id among those carrying the branch name — and the cache is
+   refreshed from it at start-up and after every DAG change, so the running server and a restarted
+   one both answer [branch_head]. *)
+Definition max_heads (r : prepo) : list (N * N) :=
+  fold_left (fun acc vn =>
+               let br := pn_branch (snd vn) in
+               match aget br acc with
+               | Some cur => if cur <? fst vn then aset br (fst vn) acc else acc
+               | None => aset br (fst vn) acc
+               end) (pr_nodes r) [].
+Definition branch_head (m : pmgr) (rid br : N) : option N :=
+  match aget rid (m_repos m) with Some r => aget br (max_heads r) | None => None end.
+
+(* the code as it stood: the running server answered from the cached map maintained by newRepo and
+   newVersion only ([m_heads]), start-up rebuilt it from the leaves ([leaf_heads] inside [recover]) *)
 Definition live_head (m : pmgr) (rid br : N) : option N :=
   match aget rid (m_heads m) with Some h => aget br h | None => None end.
+
+(* instance deletion with the metadata saved FIRST (repo_patches/C04-5-fix.diff): the repo without
+   the instance, then the key-value batches *)
+Definition delete_data_writes_fixed (m : pmgr) (rid name n b : N) : list xwrite :=
+  match aget rid (m_repos m) with
+  | None => []
+  | Some r =>
+    match aget name (pr_data r) with
+    | None => []
+    | Some iid =>
+      let batches := if n <=? b then [XDeleteBatch iid n] else [XDeleteBatch iid b; XDeleteBatch iid (n - b)] in
+      map XMeta (snd (op_delete_data m rid name)) ++ batches
+    end
+  end.
